@@ -60,6 +60,17 @@ PROPS = {
         "rule": "(value, quoting, layout) triples: values over an alphabet with quotes, backslashes, //, /*, +, ;{}, tabs, CR, LF, multi-byte runes; 1-3 pieces joined by '+'; unquoted / single / "
                 "double quoting; indentation by blanks and tabs to the exact quote column, blank lines, CRLF, comments between tokens; compared: Node.Argument().String() with the model and with Spec.decodeArg",
     },
+    "C09": {
+        "streams": {"ytriples": {"quick": 1, "thorough": 1}, "yorder": {"quick": 300, "thorough": 20000}, "yargs": {"quick": 3000, "thorough": 200000}},
+        "trusted": ["pattern arguments: the regexp dialect (XSD vs RE2) is outside the model; namespace arguments: net/url is trusted",
+                    "Spec.YRfc (the RFC 6020 substatement tables) is written from the RFC by hand"],
+        "modelled": ["typedef/grouping shadowing (buildSymbols) is not part of this property's model: generators use distinct names",
+                     "vendor vocabularies configd:* / opd:* are modelled as they are and excluded from the RFC comparison"],
+        "rule": "ytriples: EVERY (parent keyword, child keyword, multiplicity 0/1/2) over 47 parents x 65 RFC keywords (exhaustive: the complete space the cardinality table encodes), "
+                "each as a root statement with otherwise valid content, plus prefixed/unprefixed unknown keywords under every parent; yorder: all orders of the five module sections with optional "
+                "sections dropped, split headers, all pairs of 14 revision dates, random revision sequences; yargs: per argument kind a list of valid and one-edit-away invalid lexemes on every "
+                "keyword of that kind plus random mutations; compared: verdict and error line:col against the model (code's table) and the RFC table / ABNF",
+    },
     "C10": {
         "streams": {"ytree": {"quick": 10000, "thorough": 200000}},
         "trusted": [],
